@@ -17,9 +17,24 @@ import (
 // graphSweep enumerates the reference-graph alphabet: every topology of the
 // tier, each dimension swept against it with the others at their default,
 // plus pairs of dimensions on the small tier.
+type sweepStopped struct{}
+
 func graphSweep(c *Ctx, maxN int, thorough bool, emit func(g *gspec)) {
+	// past the deadline of the run the enumeration itself stops (millions of specifications may remain)
+	defer func() {
+		if r := recover(); r != nil {
+			if _, ok := r.(sweepStopped); !ok {
+				panic(r)
+			}
+		}
+	}()
 	seen := map[[32]byte]bool{}
+	nOut := 0
 	out := func(g *gspec) {
+		nOut++
+		if nOut%512 == 0 && c.Expired() {
+			panic(sweepStopped{})
+		}
 		// shard on the specification itself, before paying for the build
 		hh := fnv.New32a()
 		fmt.Fprint(hh, g.N, g.Edges, g.Place, g.Shape, g.Names, g.FragEsc, g.Entry, g.Chain, g.EntrySpell, g.IDs, g.Site, g.SameText)
